@@ -33,10 +33,12 @@ _PLAIN = set('ABCDEFGHIJKLMNOPQRSTUVWXYZabcdefghijklmnopqrstuvwxyz0123456789 ')
 
 
 def serial(year, month, day):
-    """1900-system serial of a calendar day after 1900-03-01."""
+    """1900-system serial of a calendar day (1900-01-01 is 1, 1900-02-28 is
+    59, 1900-03-01 is 61: the system counts a 29 February 1900)."""
     d = datetime.date(year, month, day)
-    assert d >= datetime.date(1900, 3, 1)
-    return (d - datetime.date(1899, 12, 30)).days
+    assert d >= datetime.date(1900, 1, 1)
+    n = (d - datetime.date(1899, 12, 30)).days
+    return n if n >= 61 else n - 1
 
 
 def plain(s):
@@ -149,6 +151,7 @@ def selftest():
         assert c == (i > j) - (i < j), (chain[i], chain[j], c)
     # well-known serials
     assert serial(2020, 1, 1) == 43831 and serial(1900, 3, 1) == 61
+    assert serial(1900, 2, 28) == 59 and serial(1900, 1, 1) == 1
     assert serial(2000, 1, 1) == 36526
     assert holds('eq', D(2020, 1, 1), N(43831)) is True
     assert holds('lt', D(2020, 1, 1), N(43831.5)) is True
